@@ -248,56 +248,7 @@ def run(fx, tier):
         # ---- short form: some branch taken exactly when Remaining Length is 0 returns a default-constructed message,
         #      and no other early return precedes the parse
         if dn in SHORT_FORM:
-            from arith import ieval
-            ok, why = False, 'no branch on Remaining Length returns the default message'
-            early = 0
-            for b in f.blocks:
-                blk = f.blocks[b]
-                cond = f.term_cond(b) if blk.term else None
-                if cond is None or len(blk.succ) != 2 or None in blk.succ:
-                    continue
-                co = expand(f, cond)
-                if not (rl and contains(co, lambda n: n.get('d') == rl[0]['d'])):
-                    continue
-                early += 1
-                try:
-                    truth = [bool(ieval(co, {'remain_length': n})) for n in range(0, 70000, 1)]
-                except Exception as ex:
-                    raise AnalysisBroken('%s: condition on remain_length not evaluable: %s' % (dn, ex))
-                tb = f.blocks[blk.succ[0]]
-                rets = [x for x in tb.elems if isinstance(x, dict) and x.get('k') == 'ret']
-                if not rets:
-                    continue
-                r = expand(f, f.resolve(rets[0]))
-                # a returned local stands for its initialiser when it is never modified afterwards
-                D0 = defs_of(f)
-
-                def unlocal(n, depth=0):
-                    if isinstance(n, dict):
-                        if n.get('k') == 'ref' and n.get('dk') == 'local' and depth < 6 and not D0.assigned.get(n.get('d')):
-                            init = D0.decl.get(n.get('d'))
-                            if init is not None:
-                                return unlocal(expand(f, init), depth + 1)
-                        return {k: (unlocal(v_, depth + 1) if k != 'fn' else v_) for k, v_ in n.items()}
-                    if isinstance(n, list):
-                        return [unlocal(i_, depth + 1) for i_ in n]
-                    return n
-                r = unlocal(r)
-                mutated = any(callee_name(cc) not in ('', None) and 'obj' in cc and isinstance(strip(cc['obj']), dict)
-                              and strip(cc['obj']).get('dk') == 'local' and strip(cc['obj']).get('d') in D0.decl
-                              and not str(callee_name(cc)).startswith('operator')
-                              for bb_, _, _, cc in f.calls() if bb_ == blk.succ[0])
-                dflt = not contains(r, lambda n: n.get('k') == 'ref' and n.get('dk') in ('param', 'local')) \
-                    and not contains(r, lambda n: n.get('k') == 'ref' and n.get('n') == 'nullopt') \
-                    and contains(r, lambda n: n.get('k') in ('init', 'ctor')) and not mutated
-                if truth[0] and not any(truth[1:]) and dflt:
-                    ok = True
-                else:
-                    why = 'the early return is taken for Remaining Length %s (must be exactly 0) / default message: %s' % (
-                        [n for n, t in enumerate(truth) if t][:4], dflt)
-            v.check(ok and early == 1, 'R-SCHEMA', '%s:short-form' % dn,
-                    'Remaining Length 0 — and only 0 — yields the default message (reason code 0, no properties)' if ok and early == 1 else why,
-                    key='C18:R-SCHEMA:%s:short-form' % dn, where=where)
+            short_form_check(f, dn, rl, v, where, 'C18')
         else:
             # no decoder without a short form may return early on the length
             early = [b for b in f.blocks if f.blocks[b].term and len(f.blocks[b].succ) == 2 and f.term_cond(b) is not None and rl
@@ -696,6 +647,10 @@ def run(fx, tier):
     import effect
     v.rule('R-EFFECT', 'byte_size() == bytes appended by encode() for every encoder building block; variable_length == to_variable_bytes')
     effect.run(fx, v, 'C18')
+    # a well-formed packet received after a reconnect is framed from the new connection's bytes only (shared with C04)
+    from c04 import reconnect_discards_buffer_rule
+    v.rule('R-DOM', 'bytes buffered from a lost connection are discarded before the next read')
+    reconnect_discards_buffer_rule(fx, v, 'C18')
     v.expect_min('R-SCHEMA', 50, 'decoders × (agreement, property class, scope, short form)')
     v.expect_min('R-TABLE', 34, 'wire formats + 27 property identifiers')
     v.expect_min('R-ARITH', 2, 'varint, length-prefixed string')
@@ -896,3 +851,71 @@ def _reach(g, b0):
         seen.add(b)
         st += [s_ for s_ in g.blocks[b].succ if s_ is not None]
     return seen
+
+
+def short_form_check(f, dn, rl, v, where, prop='C18'):
+    """Remaining Length 0 - and only 0 - yields the default message (shared with C20: the reason code of a one-byte
+    DISCONNECT/PUBACK/... body must reach to_reason_code)"""
+    from arith import ieval
+    ok, why = False, 'no branch on Remaining Length returns the default message'
+    early = 0
+    for b in f.blocks:
+        blk = f.blocks[b]
+        cond = f.term_cond(b) if blk.term else None
+        if cond is None or len(blk.succ) != 2 or None in blk.succ:
+            continue
+        co = expand(f, cond)
+        if not (rl and contains(co, lambda n: n.get('d') == rl[0]['d'])):
+            continue
+        early += 1
+        try:
+            truth = [bool(ieval(co, {'remain_length': n})) for n in range(0, 70000, 1)]
+        except Exception as ex:
+            raise AnalysisBroken('%s: condition on remain_length not evaluable: %s' % (dn, ex))
+        tb = f.blocks[blk.succ[0]]
+        rets = [x for x in tb.elems if isinstance(x, dict) and x.get('k') == 'ret']
+        if not rets:
+            continue
+        r = expand(f, f.resolve(rets[0]))
+        # a returned local stands for its initialiser when it is never modified afterwards
+        D0 = defs_of(f)
+
+        def unlocal(n, depth=0):
+            if isinstance(n, dict):
+                if n.get('k') == 'ref' and n.get('dk') == 'local' and depth < 6 and not D0.assigned.get(n.get('d')):
+                    init = D0.decl.get(n.get('d'))
+                    if init is not None:
+                        return unlocal(expand(f, init), depth + 1)
+                return {k: (unlocal(v_, depth + 1) if k != 'fn' else v_) for k, v_ in n.items()}
+            if isinstance(n, list):
+                return [unlocal(i_, depth + 1) for i_ in n]
+            return n
+        r = unlocal(r)
+        mutated = any(callee_name(cc) not in ('', None) and 'obj' in cc and isinstance(strip(cc['obj']), dict)
+                      and strip(cc['obj']).get('dk') == 'local' and strip(cc['obj']).get('d') in D0.decl
+                      and not str(callee_name(cc)).startswith('operator')
+                      for bb_, _, _, cc in f.calls() if bb_ == blk.succ[0])
+        dflt = not contains(r, lambda n: n.get('k') == 'ref' and n.get('dk') in ('param', 'local')) \
+            and not contains(r, lambda n: n.get('k') == 'ref' and n.get('n') == 'nullopt') \
+            and contains(r, lambda n: n.get('k') in ('init', 'ctor')) and not mutated
+        if truth[0] and not any(truth[1:]) and dflt:
+            ok = True
+        else:
+            why = 'the early return is taken for Remaining Length %s (must be exactly 0) / default message: %s' % (
+                [n for n, t in enumerate(truth) if t][:4], dflt)
+    v.check(ok and early == 1, 'R-SCHEMA', '%s:short-form' % dn,
+            'Remaining Length 0 — and only 0 — yields the default message (reason code 0, no properties)' if ok and early == 1 else why,
+            key='%s:R-SCHEMA:%s:short-form' % (prop, dn), where=where)
+
+
+def short_form_rule(fx, v, prop):
+    decs = {}
+    for f in fx.fns:
+        if not f.lam and f.q.startswith('boost::mqtt5::decoders::decode_') and f.n not in decs:
+            decs[f.n] = f
+    for dn in SHORT_FORM:
+        f = decs.get(dn)
+        if f is None:
+            raise AnalysisBroken('%s not instantiated' % dn)
+        rl = [p_ for p_ in f.params if p_['n'] == 'remain_length']
+        short_form_check(f, dn, rl, v, f.file, prop)
